@@ -257,6 +257,8 @@ impl PacketBuilder {
             "Mismatching crypto tag len"
         );
 
+        #[cfg(feature = "quinn_rs_quinn_verif")]
+        let verif_plain = buffer[self.partial_encode.start + self.partial_encode.header_len..].to_vec();
         buffer.resize(buffer.len() + packet_crypto.tag_len(), 0);
         let encode_start = self.partial_encode.start;
         let packet_buf = &mut buffer[encode_start..];
@@ -267,6 +269,8 @@ impl PacketBuilder {
         );
 
         let len = buffer.len() - encode_start;
+        #[cfg(feature = "quinn_rs_quinn_verif")]
+        conn.verif_record_tx_plain(self.space, self.exact_number, &verif_plain);
         conn.config.qlog_sink.emit_packet_sent(
             self.exact_number,
             len,
